@@ -313,9 +313,25 @@ pub fn mix64(x: u64) -> u64 {
 /// Long-key family: keys of hundreds to tens of thousands of bytes, alone,
 /// as prefix chains and with shared prefixes/suffixes.
 pub fn long_key_family() -> Vec<(String, Vec<Kv>)> {
+    long_keys_of(&[300usize, 1000, 70_000])
+}
+
+/// Key-length ladder: the long-key shape for EVERY length 2..=1100 and the
+/// lengths 2^k-3..2^k+3 for k = 11..16 (buffers that grow by doubling, one-
+/// and two-byte length fields, stack depth of the readers). `part` of `parts`.
+pub fn key_length_ladder(part: usize, parts: usize) -> Vec<(String, Vec<Kv>)> {
+    let mut ns: Vec<usize> = (2..=1100).collect();
+    for k in 11..=16u32 {
+        ns.extend(((1usize << k) - 3)..=((1usize << k) + 3));
+    }
+    let ns: Vec<usize> = ns.into_iter().enumerate().filter(|(i, _)| i % parts == part).map(|x| x.1).collect();
+    long_keys_of(&ns)
+}
+
+pub fn long_keys_of(ns: &[usize]) -> Vec<(String, Vec<Kv>)> {
     let k = |n: usize, seed: u8| -> Key { (0..n).map(|i| b'a' + ((i as u32 * 31 + seed as u32 + (i / 97) as u32) % 26) as u8).collect() };
     let mut v = vec![];
-    for n in [300usize, 1000, 70_000] {
+    for &n in ns {
         let base = k(n, 1);
         let mut ext = base.clone();
         ext.push(b'x');
